@@ -103,6 +103,7 @@ type State struct {
 	Depth      int // number of forks on this path
 	Assumed    []*Term // harness assumptions and assertions proved from them alone (no branch decisions)
 	NBranch    int     // number of branch decisions / concretisations in the path condition
+	Ack        map[string][]ackApp // uninterpreted-function applications made on this path
 	Lemmas     map[int]bool // proved assertions in PC (implied by the rest; skipped in feasibility queries)
 	lemOwned   bool
 }
@@ -155,6 +156,12 @@ func (st *State) Clone() *State {
 	st.Assumed = st.Assumed[:len(st.Assumed):len(st.Assumed)]
 	c.Choices = st.Choices[:len(st.Choices):len(st.Choices)]
 	st.Choices = st.Choices[:len(st.Choices):len(st.Choices)]
+	if st.Ack != nil {
+		c.Ack = map[string][]ackApp{}
+		for k, v := range st.Ack {
+			c.Ack[k] = v[:len(v):len(v)]
+		}
+	}
 	c.Reached = map[string]bool{}
 	for k, v := range st.Reached {
 		c.Reached[k] = v
